@@ -325,6 +325,22 @@ pub fn run(e: &'static Engine) {
                 o.label("part:auto_mask_small");
                 check_pre(c, *pre, fam, o)
             });
+            // large versions with periodic payloads: a regular texture gives one candidate thousands of 1011101 windows
+            // or maximal run counts, the region where accumulated penalties are largest
+            let strat = (
+                (27usize..=40, 0usize..4, any::<u8>(), proptest::collection::vec(any::<u8>(), 1..4), any::<bool>(), any::<u16>()).prop_map(|(v, li, b, unit, constant, cut)| {
+                    let level = Level::from_index(li);
+                    let cap = capacity(v, level, Mode::Byte);
+                    let len = if cut % 3 == 0 { cap } else { cap - crate::gens::pick(cut, cap / 4) };
+                    let input: Vec<u8> = if constant { vec![b; len] } else { (0..len).map(|i| unit[i % unit.len()]).collect() };
+                    (BuildCase::new(input, crate::fq::Opts { mode: Some(Mode::Byte), level: Some(level), version: Some(v), mask: None }), if constant { "byte_constant" } else { "byte_periodic" }) as (BuildCase, &'static str)
+                }),
+                0u8..5,
+            );
+            jc.run_prop(5 << 20, &strat, (total / shards / 40).max(4), |((c, _), pre)| case_json(c, *pre), |((c, fam), pre), o| {
+                o.label("part:large_periodic");
+                check_pre(c, *pre, fam, o)
+            });
             // steered matrices: long runs, finder look-alikes and uniform blocks at the symbol edges and next to function patterns
             let strat = (crate::gens::steered_case(1, 12, false), 0u8..5);
             jc.run_prop(3 << 20, &strat, total / shards / 4, |((c, _), pre)| case_json(c, *pre), |((c, fam), pre), o| {
